@@ -114,6 +114,7 @@ pub fn run(out: &mut Out, thorough: bool, seed: u64, _extra: &[String]) {
         }
     }
     high_degree(out, &mut r, kmax, thorough);
+    crate::wrappers::run(out, &mut r, if thorough { 120 } else { 24 }, true);
 }
 
 fn mulm(a: u64, b: u64, q: u64) -> u64 { ((a as u128 * b as u128) % q as u128) as u64 }
